@@ -93,6 +93,16 @@ LINE_KINDS = ["kept", "changed", "dropped", "empty", "spaces"]
 
 def make_shape(n):
     def fn(en):
+        if en.flag("zero_lines"):
+            # an in-memory datasource result without any line: nothing is stored
+            content = [[], "", [""], "\n"][en.choice("zero_form", 4)]
+            case0 = lambda mv: {"kind": "zero-lines", "content": content}  # noqa
+            en.note_sample(case0)
+            cl = K.make_cleaner(K.Cfg(obfuscate=False))
+            written, err = provider_write(cl, content, [])
+            en.must_hold(err is not None and not written, "empty-not-stored", case0, detail="a spec without any line was stored: %r" % (written,))
+            en.must_hold(True, "shape")
+            return
         kinds = [LINE_KINDS[en.choice("kind%d" % i, len(LINE_KINDS))] for i in range(n)]
         noparsers = en.flag("no_parsers")
         lines = []
@@ -176,7 +186,7 @@ def provider_write(cl, lines, no_obf, no_redact=False):
     SF.open = lambda p, mode="r": F(p)
     SF.fs.ensure_path = lambda p, mode=0o755: None
     try:
-        prov = SF.DatasourceProvider(list(lines), "insights_commands/test", ds=_DS(no_obf, no_redact), ctx=HostContext(), cleaner=cl)
+        prov = SF.DatasourceProvider(list(lines) if isinstance(lines, list) else lines, "insights_commands/test", ds=_DS(no_obf, no_redact), ctx=HostContext(), cleaner=cl)
         try:
             prov.write("/out/data/insights_commands/test")
             return written, None
@@ -279,6 +289,44 @@ def make_fresh():
     return fn
 
 
+# ------------------------------------------------------------------ O4: a corpus under several hash seeds, each in its own interpreter
+SEED_CORPUS = ["login on myhost.example.org from 10.1.2.3 and 10.1.2.4", "inet6 2001:db8:1:2:3:4:5:6/64 and fe80::5054:ff:fe12:3456 scope link",
+               "link/ether 52:54:00:ab:cd:ef brd ff:ff:ff:ff:ff:ff", "db1.example.org talks to web2.example.org password: hunter2 secret", "nothing sensitive here"]
+
+
+def corpus_output():
+    cl = K.make_cleaner(K.Cfg(ipv6=True, hostname=True, mac=True), keywords=["secret", "web"])
+    return cl.clean_content(list(SEED_CORPUS))
+
+
+def corpus_under_seeds(seeds):
+    import json
+    here = os.path.dirname(os.path.dirname(os.path.abspath(__file__)))
+    code = ("import json, sys, os\nsys.path.insert(0, %r); sys.path.insert(1, %r)\nos.environ['SYMX_NATIVE'] = '1'\nfrom props import C10\n"
+            "print(json.dumps(C10.corpus_output()))\n") % (here, os.environ.get("VERIF_REPO", "/repo"))
+    outs = {}
+    for seed in seeds:
+        env = dict(os.environ)
+        env["PYTHONHASHSEED"] = str(seed)
+        env["SYMX_NATIVE"] = "1"
+        p = subprocess.run([sys.executable, "-c", code], capture_output=True, text=True, env=env, timeout=120)
+        if p.returncode != 0:
+            return ["child interpreter failed: %s" % p.stderr[-400:]]
+        outs.setdefault(p.stdout.strip().splitlines()[-1], []).append(seed)
+    return ["the same corpus and configuration give %d different outputs over PYTHONHASHSEED %s: %s" % (len(outs), list(seeds), list(outs.values()))] if len(outs) > 1 else []
+
+
+def make_seeds():
+    def fn(en):
+        group = en.choice("seed_group", 2)
+        seeds = [(0, 1, 2), (7, 123, 4242)][group]
+        case = lambda mv: {"kind": "seeds", "seeds": list(seeds)}  # noqa
+        en.note_sample(case)
+        bad = corpus_under_seeds(seeds)
+        en.must_hold(not bad, "order-fixed", case, detail=bad)
+    return fn
+
+
 def obligations(tier):
     thorough = tier == "thorough"
     enc = [CL.Cleaner.clean_content, CL.Cleaner.__init__, SF.ContentProvider._clean_content, SF.ContentProvider.write, SF.DatasourceProvider.__init__]
@@ -296,6 +344,9 @@ def obligations(tier):
         Obligation("O3-fresh-cleaner", make_fresh(), ["order-fixed"],
                    desc="a fresh cleaner gives the same output and host mapping whether or not another cleaner (other system name, other domain) was created and used earlier in the same process (finite exploration)",
                    bounds={"earlier cleaner": [x[0] if x else None for x in EARLIER], "fresh cleaner": [x[0] for x in LATER]}, stubs=stubs, encoded=[CL.Cleaner.__init__], budget_s=120, replay="order", check_sample=True),
+        Obligation("O4-hash-seeds", make_seeds(), ["order-fixed"],
+                   desc="a fixed corpus (IPv4, IPv6, MAC, host names, keywords, password) cleaned in pristine interpreters under six hash seeds: one output (a safety net for seed dependence of any origin; finite exploration)",
+                   bounds={"corpus lines": len(SEED_CORPUS), "PYTHONHASHSEED": [0, 1, 2, 7, 123, 4242]}, encoded=[CL.Cleaner.clean_content], budget_s=120, replay="order", check_sample=True),
         Obligation("O2-shape", make_shape(4 if thorough else 3), ["shape", "empty-not-stored"],
                    desc="lines that are kept / changed / dropped / empty / blank: output in input order, one output line per surviving input line, all-blank collapses to nothing and is not stored",
                    bounds={"lines": 4 if thorough else 3, "line kinds": LINE_KINDS, "configurations": "pattern redaction + password masking, or no parser applicable at all"},
@@ -356,6 +407,12 @@ def _native(case):
                 return ["child interpreter failed: %s" % p.stderr[-500:]]
             outs.setdefault(p.stdout.strip().splitlines()[-1], []).append(seed)
         return ["the allow-list stage keeps %d different line sets over PYTHONHASHSEED 0..11: %s" % (len(outs), outs)] if len(outs) > 1 else []
+    if case["kind"] == "seeds":
+        return corpus_under_seeds(case["seeds"])
+    if case["kind"] == "zero-lines":
+        cl = K.make_cleaner(K.Cfg(obfuscate=False))
+        written, err = provider_write(cl, case["content"], [])
+        return [] if (err is not None and not written) else ["a spec without any line was stored: %r" % (written,)]
     if case["kind"] == "fresh":
         fq, text = case["later"]
         fresh_references()
